@@ -149,7 +149,35 @@ def has_special(v: Any) -> bool:
     return False
 
 
+_uenvs: dict[str, Any] = {}
+# what a missing value prints (nothing, or a debugging hint that quotes the path that failed - data included) is text like any other
+MISSING_USES = ["{{ h[s] }}", "{{ nosuch[s] }}", "{{ h[s].x }}", "{{ h[s][t] }}", "{% assign v = h[s] %}{% echo v %}", "{{ h[s] | default: h[t] }}", "{% for x in h[s] %}x{% else %}{{ h[s] }}{% endfor %}", "{% cycle h[s], 1 %}",
+                "{{ h[s] | append: t }}", "{% capture c %}{{ h[s] }}{% endcapture %}{{ c }}", "{% if h[s] %}y{% else %}{{ h[s] }}{% endif %}", "{{ xs[s] }}", "{{ s[t] }}", "{% call nosuchmacro %}", "{% render 'p', v: h[s] %}",
+                "{{ h[s] | join: t }}", "{% liquid\necho h[s]\n%}", "{{ h[s] if true else 1 }}"]
+
+
+def judge_undefined(ctx: core.Ctx, case: dict[str, Any]) -> None:
+    u = case["undefined"]
+    if u not in _uenvs:
+        _uenvs[u] = drv.make_env({"autoescape": True, "extra": True, "undefined": u, "flags": {"ternary_expressions": True}}, loader=DictLoader(dict(PARTIALS)))
+    data = V.dec(case["data"])
+    o = drv.parse_and_render(_uenvs[u], case["source"], data, use_async=case.get("async", False))
+    ctx.count("missing_value_renders")
+    if not o.ok:
+        ctx.count("missing_value_render_raised")
+        return
+    bad = scan(o.value)
+    ctx.evaluations += 1
+    if bad:
+        ctx.violation(f"{'bare-ampersand' if bad == 'bare-ampersand' else 'raw-special'}:text-of-a-missing-value:{u}", f"autoescape on, undefined={u}: {case['source']!r} with {data!r:.120} rendered {o.value!r:.160}")
+        return
+    ctx.ok((case["source"], case["data"], u), nontrivial=has_special(data))
+
+
 def judge(ctx: core.Ctx, case: dict[str, Any]) -> None:
+    if case.get("kind") == "undefined-type":
+        judge_undefined(ctx, case)
+        return
     data = V.dec(case["data"])
     src = case["source"]
     if case.get("kind") == "passthrough":
@@ -388,6 +416,14 @@ PASS_ROUTES = [
 
 
 def cases(ctx: core.Ctx):
+    k = 0
+    for u in ("debug", "default", "strict_default"):
+        for src in MISSING_USES:
+            for sv in HOSTILE[:14]:
+                k += 1
+                if k % ctx.nshards != ctx.shard or (ctx.tier == "quick" and k % 2):
+                    continue
+                yield {"kind": "undefined-type", "undefined": u, "source": src, "data": V.enc({"s": sv, "t": HOSTILE[(k * 7) % len(HOSTILE)], "h": {"a": 1}, "xs": [1]}), "async": k % 5 == 0}
     rng = ctx.rng("cases")
     # values marked safe stay byte-for-byte what they are on every route from the data to the output (special characters of every
     # kind on their own: a value whose only special character is a quote is as safe as one full of tags)
